@@ -231,7 +231,12 @@ static std::string schema_private(const char* type, const char* value) {
 static std::string s10_a() { return schema_private("string", "abc12"); }
 static std::string s10_b() { return schema_private("token", "12ab"); }
 
+// case-insensitive use of a shared category token: RangeToken::getCaseInsensitiveToken() caches its result in the token
+static std::string s11_a() { return regex_body("\\p{Lu}+x", "i", {"ABx", "abX", "1x"}); }
+static std::string s11_b() { return regex_body("[\\p{Lu}]y", "i", {"Ay", "ay", "1y"}); }
+
 static std::vector<Scenario> SCENARIOS = {
+    {"regex-icase-categories", "two threads compile case-insensitive expressions over the same shared category token", {s11_a, s11_b}, false},
     {"named-transcoders", "first use of named transcoders (service mapping, ICU converters), decode and encode", {s9_a, s9_b}, false},
     {"private-schema-build", "two private parsers each build a schema grammar with a pattern facet and validate", {s10_a, s10_b}, false},
     {"regex-categories", "first use of the same lazily built regex character categories", {s1_a, s1_b}, false},
